@@ -163,10 +163,8 @@ func c15rCheck(e *c15rEnv, p *vreport.Part, c c15rCase) {
 			e.seenD[dk] = true
 			p.Distinct(dk)
 		}
-		var obs [2]c15ref.Obs
 		for bi, lb := range lbs {
 			o, handed := c15rAsk(lb, crit, hosts)
-			obs[bi] = o
 			b := "filtering builder"
 			if bi == 1 {
 				b = "pre-index builder"
@@ -175,14 +173,13 @@ func c15rCheck(e *c15rEnv, p *vreport.Part, c c15rCase) {
 				e.seenO[ok] = true
 				p.Outcome(ok)
 			}
-			for _, pb := range c15ref.Judge(exp, o, true) {
-				p.Violation(fmt.Sprintf("router-criteria | %s | %s (%s) | %s", b, exp.Class, exp.Reason, pb.What),
-					fmt.Sprintf("route metadata_match=%v, criteria handed to the balancer by router.NewMetadataMatchCriteriaImpl: %v (%s): %s; observed %s; hosts=%v selectors=%v policy=%d default=%v",
-						crit, handed, exp.Rel, pb.Detail, o, c.Cfg.Hosts, c.Cfg.Selectors, c.Cfg.Policy, c.Cfg.Default), only())
+			// the most severe deviation only; the builder goes into the detail (the
+			// two builders are compared with each other by the in-package part)
+			if ps := c15ref.Judge(exp, o, true); len(ps) > 0 {
+				p.Violation(fmt.Sprintf("router-criteria | %s | %s", exp.Class, ps[0].What),
+					fmt.Sprintf("%s: route metadata_match=%v, criteria handed to the balancer by router.NewMetadataMatchCriteriaImpl: %v (fallback reason: %s; key sets: %s): %s; observed %s; hosts=%v selectors=%v policy=%d default=%v",
+						b, crit, handed, exp.Reason, exp.Rel, ps[0].Detail, o, c.Cfg.Hosts, c.Cfg.Selectors, c.Cfg.Policy, c.Cfg.Default), only())
 			}
-		}
-		for _, d := range c15ref.Differ(obs[0], obs[1]) {
-			p.Violation("router-criteria | builders disagree | "+d.What, fmt.Sprintf("criteria=%v: filtering %s ; pre-index %s (%s)", crit, obs[0], obs[1], d.Detail), only())
 		}
 	}
 }
